@@ -188,7 +188,7 @@ func runSpec(sp *execSpec) vx.Result {
 			srv.Put(t.data[oid])
 		}
 	}
-	gitcfg := sp.GitCfg
+	gitcfg := strings.ReplaceAll(sp.GitCfg, "{{URL}}", srv.URL)
 	in := t.instantiate(srv.lfsURL(), gitcfg)
 	defer in.w.Close()
 	if sp.NeedCreds {
@@ -806,6 +806,83 @@ func buildParts(c *vx.Check) []part {
 		pre, steps, lp, lids := seq.Build(pathsOf(set), id)
 		sp := &execSpec{Part: "locks", Case: fmt.Sprintf("locks/%s/%s/page%d/cursor-%d/id-%s/%s", seq.Name, set, page, len(ctag), id.Name, br), Branch: br, Set: set,
 			Cfg: srvCfg{Verify: true, Locks: pre, PageSize: page, CursorTag: ctag, NextID: id.ID}, Steps: steps, LockPaths: lp, LockIDs: lids, ExpectFailStep: -1}
+		return runSpec(sp)
+	}})
+
+	// ---- action-auth: a 401 from the action endpoint itself (first storage GET / storage PUT / verify request), crossed with
+	// {action carries its own Authorization, none} x {authenticated true, false}, credential helper available.
+	// Every request to an action href, re-sent ones included, must carry the offered header values.
+	type aaCombo struct {
+		op     opDef
+		target string
+	}
+	var aaCombos []aaCombo
+	aaOps := []opDef{ops[0], ops[2]}
+	if th {
+		aaOps = ops[:5]
+	}
+	for _, op := range aaOps {
+		aaCombos = append(aaCombos, aaCombo{op, "storage"})
+		if op.Dir == "upload" {
+			aaCombos = append(aaCombos, aaCombo{op, "verify"})
+		}
+	}
+	aaSets := []string{"one"}
+	if th {
+		aaSets = []string{"one", "three"}
+	}
+	c.Bounds["action-auth"] = fmt.Sprintf("%d (op, 401 target) pairs x {action Authorization, none} x {authenticated true, false} x {401 once, 401 twice} x %d file sets", len(aaCombos), len(aaSets))
+	parts = append(parts, part{"action-auth", func(x *vx.X) vx.Result {
+		cb := aaCombos[x.In(len(aaCombos))]
+		withAuth := x.In(2) == 0
+		authd := x.In(2) == 1
+		times := 1 + x.In(2)
+		set := aaSets[x.In(len(aaSets))]
+		hdr := map[string]string{"X-C18-Token": "t"}
+		if withAuth {
+			hdr["Authorization"] = "Bearer c18-action-token"
+		}
+		fl := []fault{}
+		for i := 0; i < times; i++ {
+			fl = append(fl, fault{Status: 401})
+		}
+		sp := &execSpec{Part: "action-auth", Branch: "main", Set: set, Steps: cb.op.Steps("main"), Seed: cb.op.Seed, NeedCreds: true, ExpectFailStep: -1,
+			Cfg: srvCfg{Verify: true, ActionHeader: hdr, HrefQuery: richQuery, Authenticated: tr(authd), Faults: map[string][]fault{cb.target: fl}}}
+		sp.Case = fmt.Sprintf("action-auth/%s/401x%d-on-%s/action-authorization=%v/authenticated=%v/%s", cb.op.Name, times, cb.target, withAuth, authd, set)
+		return runSpec(sp)
+	}})
+
+	// ---- client-config: client settings that touch how an action is used, crossed with upload actions offering Content-Type / Transfer-Encoding
+	type ccfg struct{ name, cfg string }
+	ccfgs := []ccfg{
+		{"default", ""},
+		{"lfs.contenttype=false", "[lfs]\n\tcontenttype = false\n"},
+		{"lfs.<url>.contenttype=false", "[lfs \"{{URL}}\"]\n\tcontenttype = false\n"},
+		{"enablehrefrewrite+unrelated-insteadOf", "[lfs \"transfer\"]\n\tenablehrefrewrite = true\n[url \"http://rewritten.invalid/\"]\n\tinsteadOf = http://elsewhere.invalid/\n"},
+		{"contenttype=false+enablehrefrewrite", "[lfs]\n\tcontenttype = false\n[lfs \"transfer\"]\n\tenablehrefrewrite = true\n"},
+	}
+	type uhdr struct {
+		name string
+		h    map[string]string
+	}
+	uhdrs := []uhdr{
+		{"none", nil},
+		{"content-type", map[string]string{"Content-Type": "application/x-c18-object"}},
+		{"chunked", map[string]string{"Transfer-Encoding": "chunked"}},
+		{"content-type+chunked", map[string]string{"Content-Type": "application/x-c18-object; v=1", "Transfer-Encoding": "chunked"}},
+	}
+	ccOps := []opDef{ops[0], ops[2]}
+	if th {
+		ccOps = ops[:5]
+	}
+	c.Bounds["client-config"] = fmt.Sprintf("%d client configurations x %d upload-action header sets x %d ops", len(ccfgs), len(uhdrs), len(ccOps))
+	parts = append(parts, part{"client-config", func(x *vx.X) vx.Result {
+		cc := ccfgs[x.In(len(ccfgs))]
+		uh := uhdrs[x.In(len(uhdrs))]
+		op := ccOps[x.In(len(ccOps))]
+		sp := &execSpec{Part: "client-config", Branch: "main", Set: "three", Steps: op.Steps("main"), Seed: op.Seed, GitCfg: cc.cfg, ExpectFailStep: -1,
+			Cfg: srvCfg{Verify: true, ActionHeader: map[string]string{"X-C18-Token": "t"}, UploadHeader: uh.h, HrefQuery: richQuery}}
+		sp.Case = fmt.Sprintf("client-config/%s/%s/upload-header-%s", op.Name, cc.name, uh.name)
 		return runSpec(sp)
 	}})
 
